@@ -544,7 +544,59 @@ def calltree_program():
     return {"functions": F}
 
 
+def loops_program():
+    """Loop programs over small integers for value conditions (C12)."""
+    F = [
+        fn(
+            "L",
+            ["p"],
+            [
+                ["bind", "n", V],
+                [
+                    "for",
+                    "i",
+                    [
+                        ["bind", "j", V],
+                        ["bind", "x", ["add", var("i"), var("j")]],
+                        ["if", [["bind", "n", V]], []],
+                        use("i", "j", "x", "n"),
+                    ],
+                    [],
+                ],
+                ["ret", var("n")],
+            ],
+        ),
+        fn(
+            "outer",
+            ["a"],
+            [
+                ["bind", "b", V],
+                [
+                    "while",
+                    [
+                        ["bind", "b", V],
+                        ["bind", "r", ["call", "inner", [V]]],
+                        use("b", "r"),
+                    ],
+                ],
+                ["ret", var("b")],
+            ],
+        ),
+        fn(
+            "inner",
+            ["c"],
+            [
+                ["bind", "d", V],
+                ["for", "k", [["bind", "e", ["add", var("k"), var("c")]], use("e")], []],
+                ["ret", var("d")],
+            ],
+        ),
+    ]
+    return {"functions": F}
+
+
 PROGRAMS = {
+    "loops": loops_program,
     "forms": forms_program,
     "calltree": calltree_program,
 }
